@@ -901,7 +901,7 @@ pub fn prop() -> DiceProp {
         nightly: false,
         check_only: false,
         ndice: 128,
-        quick: (2000, 1),
+        quick: (4000, 1),
         thorough: (6000, 5),
         build,
         fixed,
